@@ -315,6 +315,9 @@ class Type4Tag(nfc.tag.Tag):
 
                 nlen = unpack(lfmt, nlen)[0]
                 log.debug("ndef data length is {0}".format(nlen))
+                if nlen > self._capacity:
+                    log.debug("ndef data length exceeds the file size")
+                    return None
 
                 data = bytearray()
                 while len(data) < nlen:
